@@ -8,6 +8,12 @@ From Tx Require Model.OpsC16.
 From Tx Require Model.OpsC03.
 From Tx Require Model.OpsC08.
 From Tx Require Model.OpsC15.
+From Tx Require Model.OpsC17.
+From Tx Require Model.OpsC10.
+From Tx Require Model.OpsC13.
+From Tx Require Model.OpsC09.
+From Tx Require Model.OpsC12.
+From Tx Require Model.OpsC04.
 Local Open Scope Z_scope.
 
 Definition run_op (s : sexp) : sexp :=
@@ -21,6 +27,12 @@ Definition run_op (s : sexp) : sexp :=
       | 16 => OpsC16.op args
       | 8 => OpsC08.op args
       | 15 => OpsC15.op args
+      | 17 => OpsC17.op args
+      | 10 => OpsC10.op args
+      | 13 => OpsC13.op args
+      | 9 => OpsC09.op args
+      | 12 => OpsC12.op args
+      | 4 => OpsC04.op args
       | _ => bad
       end
   | _ => bad
